@@ -270,3 +270,46 @@ func HasPanicTrace(stderr string) bool {
 	return strings.Contains(stderr, "panic:") || strings.Contains(stderr, "goroutine ") && strings.Contains(stderr, "[running]") ||
 		strings.Contains(stderr, "fatal error:")
 }
+
+// BuildEnv is the environment used to build goderive variants from a repository copy.
+func BuildEnv() []string {
+	env := []string{}
+	for _, kv := range os.Environ() {
+		k := kv[:strings.Index(kv, "=")]
+		switch k {
+		case "GOFLAGS", "GOTOOLCHAIN", "GOWORK", "GOSUMDB":
+			continue
+		}
+		env = append(env, kv)
+	}
+	return append(env, "GOFLAGS=-mod=vendor", "GOPROXY=off", "GOTOOLCHAIN=auto", "GOWORK=off")
+}
+
+// ChildEnv is the environment for goderive and go tool child processes.
+func ChildEnv() []string { return baseEnv() }
+
+// CopyDirFiltered copies a repository tree without .git and scratch directories.
+func CopyDirFiltered(src, dst string) error {
+	os.RemoveAll(dst)
+	return filepath.WalkDir(src, func(p string, d fs.DirEntry, err error) error {
+		if err != nil {
+			return err
+		}
+		rel, _ := filepath.Rel(src, p)
+		if d.IsDir() && (d.Name() == ".git" || rel == "SEED") {
+			return filepath.SkipDir
+		}
+		t := filepath.Join(dst, rel)
+		if d.IsDir() {
+			return os.MkdirAll(t, 0o755)
+		}
+		if !d.Type().IsRegular() {
+			return nil
+		}
+		b, err := os.ReadFile(p)
+		if err != nil {
+			return err
+		}
+		return os.WriteFile(t, b, 0o644)
+	})
+}
